@@ -8,13 +8,27 @@ import (
 )
 
 type MultiLocalisedUnicode struct {
-	entriesByLanguageCountry map[[2]byte]map[[2]byte]string
+	entriesByLanguageCountry map[[2]byte]map[[2]byte]mlucString
+}
+
+// mlucString refers to the UTF-16BE bytes of one record's string within the
+// tag data. Records may share or overlap their strings, so strings are only
+// decoded when they are asked for; decoding every record up front would cost
+// time and memory proportional to the record count times the tag size.
+type mlucString []byte
+
+func (s mlucString) decode() string {
+	codeUnits := make([]uint16, len(s)/2)
+	for j := 0; j < len(codeUnits); j++ {
+		codeUnits[j] = uint16(s[2*j])<<8 | uint16(s[2*j+1])
+	}
+	return string(utf16.Decode(codeUnits))
 }
 
 func (mluc *MultiLocalisedUnicode) getAnyString() string {
 	for _, country := range mluc.entriesByLanguageCountry {
 		for _, s := range country {
-			return s
+			return s.decode()
 		}
 	}
 	return ""
@@ -26,20 +40,20 @@ func (mluc *MultiLocalisedUnicode) getString(language [2]byte, country [2]byte) 
 		return ""
 	}
 
-	return countries[country]
+	return countries[country].decode()
 }
 
 func (mluc *MultiLocalisedUnicode) getStringForLanguage(language [2]byte) string {
 	for _, s := range mluc.entriesByLanguageCountry[language] {
-		return s
+		return s.decode()
 	}
 	return ""
 }
 
-func (mluc *MultiLocalisedUnicode) setString(language [2]byte, country [2]byte, text string) {
+func (mluc *MultiLocalisedUnicode) setString(language [2]byte, country [2]byte, text mlucString) {
 	countries, ok := mluc.entriesByLanguageCountry[language]
 	if !ok {
-		countries = map[[2]byte]string{
+		countries = map[[2]byte]mlucString{
 			country: text,
 		}
 		mluc.entriesByLanguageCountry[language] = countries
@@ -51,7 +65,7 @@ func (mluc *MultiLocalisedUnicode) setString(language [2]byte, country [2]byte, 
 
 func parseMultiLocalisedUnicode(data []byte) (MultiLocalisedUnicode, error) {
 	result := MultiLocalisedUnicode{
-		entriesByLanguageCountry: make(map[[2]byte]map[[2]byte]string),
+		entriesByLanguageCountry: make(map[[2]byte]map[[2]byte]mlucString),
 	}
 
 	reader := bytes.NewReader(data)
@@ -114,12 +128,7 @@ func parseMultiLocalisedUnicode(data []byte) (MultiLocalisedUnicode, error) {
 			return result, fmt.Errorf("record exceeds tag data length")
 		}
 
-		recordStringBytes := data[stringOffset : stringOffset+stringLength]
-		recordStringUTF16 := make([]uint16, len(recordStringBytes)/2)
-		for j := 0; j < len(recordStringUTF16); j++ {
-			recordStringUTF16[j] = uint16(recordStringBytes[2*j])<<8 | uint16(recordStringBytes[2*j+1])
-		}
-		result.setString(language, country, string(utf16.Decode(recordStringUTF16)))
+		result.setString(language, country, mlucString(data[stringOffset:stringOffset+stringLength]))
 
 		// Skip to next record
 		for j := uint32(12); j < recordSize; j++ {
